@@ -376,46 +376,64 @@ def r5(ctx):
     ctx.obligation(ok)
     if not ok:
         ctx.violation("optional/brackets/parse_fields", ctx.where("parser::Parser::parse_fields"), "parse_fields does not accept both bracket kinds (%s)" % sorted(pats))
-    # parse_function: both opening kinds, matching closing kind
-    fh = ctx.anchor_hir("parser::Parser::parse_function")
-    r = render(fh)
-    ctors = set()
-    for x in walk_exprs(fh):
-        if x["k"] == "Path" and "Lexem::" in x.get("res", ""):
-            ctors.add(short(x["res"], 1))
-    ok = {"Open", "CurlyOpen", "Close", "CurlyClose"} <= ctors
-    ctx.obligation(ok)
-    if not ok:
-        ctx.violation("optional/brackets/parse_function", ctx.where("parser::Parser::parse_function"),
-                      "parse_function does not handle both bracket kinds (%s)" % sorted(ctors))
-    # the condition under which a lexem closes the argument list is evaluated on (closing lexem kind) x (curly mode): it holds
-    # exactly for the closing bracket of the style the call was opened with
+    # parse_function evaluated (finite interpreter; the argument level parse_expr is a stand-in that takes one word): round and curly
+    # brackets are interchangeable, the closing bracket is the one of the style the call was opened with, further arguments follow
+    # commas, and a boolean function may stand without brackets
     import interp
-    pair_ok = False
-    cands = [c for c, _b, _n in conditions(fh) if "Close" in render(c) and "curly" in render(c).lower()]
-    for c in cands:
-        ids = {y["res"]: y.get("name") for y in walk_exprs(c) if y["k"] == "Path" and y.get("rk") == "Local"}
+    from extra import _expr_dict
+    V = interp.V
+    PFN = "parser::Parser::parse_function"
+    fh = ctx.anchor_hir(PFN)
+    fps = ctx.prog.fns[PFN]["params"]
+    W = lambda t: V("Lexem::RawString", [t])
+    O, C, CO, CC, CM = V("Lexem::Open"), V("Lexem::Close"), V("Lexem::CurlyOpen"), V("Lexem::CurlyClose"), V("Lexem::Comma")
+    shapes = [("f(a)", "Concat", [O, W("a"), C], ("a", []), 3), ("f{a}", "Concat", [CO, W("a"), CC], ("a", []), 3),
+              ("f(a, b, c)", "Concat", [O, W("a"), CM, W("b"), CM, W("c"), C], ("a", ["b", "c"]), 7), ("f{a, b}", "Concat", [CO, W("a"), CM, W("b"), CC], ("a", ["b"]), 5),
+              ("f(a}", "Concat", [O, W("a"), CC], "err", None), ("f{a)", "Concat", [CO, W("a"), C], "err", None), ("f(a, )", "Concat", [O, W("a"), CM, C], "err", None),
+              ("f(a b", "Concat", [O, W("a"), W("b")], "err", None), ("f x", "Concat", [W("x")], "err", None), ("boolean f x", "Contains", [W("x")], (None, []), 1),
+              ("boolean f(a)", "Contains", [O, W("a"), C], ("a", []), 3)]
+    badf = []
+    for label, func, lex, want, want_index in shapes:
+        selfv = interp.LazySelf({"lexems": list(lex), "index": 0, "roots_parsed": True, "where_parsed": True})
+
+        def call(node, recv, args, it, env, selfv=selfv):
+            m_ = node.get("m") or ""
+            callee = str(node.get("callee", ""))
+            if m_ == "parse_expr" or callee.endswith("Parser::parse_expr"):
+                i = selfv["index"]
+                if i < len(selfv["lexems"]) and selfv["lexems"][i].name == "Lexem::RawString":
+                    selfv["index"] = i + 1
+                    return (V("Result::Ok", [interp.some(_expr_dict(interp, val=interp.some(selfv["lexems"][i].args[0])))]),)
+                selfv["index"] = min(i + 1, len(selfv["lexems"]))       # the lexem that is no expression has been read
+                return (V("Result::Err", ["Error parsing expression, expecting string"]),)
+            return None
+        env = {}
+        for p_ in fps:
+            if p_.get("k") == "Bind":
+                env[p_["id"]] = selfv if p_["name"] == "self" else V("Function::" + func)
         try:
-            tbl = {}
-            for lx in ("Close", "CurlyClose", "Comma"):
-                for cm in (False, True):
-                    env = {i: (cm if str(nm).startswith("curly") or "curly" in str(nm) else interp.V("Lexem::" + lx)) for i, nm in ids.items()}
-                    tbl[(lx, cm)] = interp.Interp(prog=ctx.prog).ev(c, env)
-            if all(v == ((lx == "CurlyClose") == cm and lx != "Comma") for (lx, cm), v in tbl.items()):
-                pair_ok = True
-        except interp.Undecided:
-            continue
-    ctx.obligation(pair_ok)
-    if not pair_ok:
-        ctx.violation("optional/brackets/parse_function-pairing", ctx.where("parser::Parser::parse_function"),
-                      "the closing bracket of a function call is not tied to the kind of its opening bracket")
-    # a boolean function may omit ()
-    ok = any(x["k"] == "If" and "is_boolean_function" in render(x["c"]) for x in walk_exprs(fh))
-    ctx.obligation(ok)
-    if not ok:
-        ctx.violation("optional/no-parens", ctx.where("parser::Parser::parse_function"), "argument-less boolean functions must be accepted without ()")
-    ctx.covered("optional-token idioms (comma, select, asc, bracket kinds, () after functions)", 6,
-                distinct_keys=["comma", "select", "brackets-fields", "brackets-fn", "pairing", "noparens"])
+            got = interp.Interp(call=call, prog=ctx.prog, max_steps=40000).run(fh, env)
+        except interp.Undecided as e:
+            badf.append("cannot evaluate parse_function on `%s`: %s" % (label, e))
+            break
+        if isinstance(got, V) and got.name == "Result::Err":
+            g = "err"
+        elif isinstance(got, V) and got.name == "Result::Ok" and isinstance(got.args[0], dict):
+            ex = got.args[0]
+            un = lambda x: x.args[0] if isinstance(x, V) and x.name == "Option::Some" else None
+            lf, ar = un(ex.get("left")), un(ex.get("args"))
+            g = (un(lf.get("val")) if isinstance(lf, dict) else None, [un(a_.get("val")) for a_ in ar] if isinstance(ar, list) else [])
+        else:
+            g = repr(got)
+        if g != want or (want_index is not None and selfv["index"] != want_index):
+            badf.append("`%s` gives %s (cursor %s), expected %s%s" % (label, g, selfv["index"], want, "" if want_index is None else " (cursor %d)" % want_index))
+    ctx.obligation(not badf)
+    if badf:
+        ctx.violation("optional/brackets/parse_function", ctx.where(PFN),
+                      "a function call takes its arguments in round or curly brackets, closed by the bracket of the same style, separated by commas; a boolean "
+                      "function may stand alone: %s" % "; ".join(badf[:3]))
+    ctx.covered("optional-token idioms (comma, select, asc, bracket kinds of the select list); parse_function evaluated on 11 call shapes", 3 + len(shapes),
+                distinct_keys=["comma", "select", "brackets-fields"] + [s_[0] for s_ in shapes])
 
 
 RULES = [
